@@ -136,7 +136,7 @@ static void sig_handler_cb(void *_i)
 			mc_obs("L%d:raise-in-handler", me);
 			sched_atomic_begin();
 			model_deliver(me, I[i].sig);
-			pthread_kill(pthread_self(), I[i].sig);
+			sched_raise(I[i].sig);
 			sched_atomic_end();
 			break;
 		case 2:         /* unregister self from own handler */
@@ -301,7 +301,7 @@ static void driver(void *dummy)
 				mc_obs("D:deliver%d->D", sig);
 				sched_atomic_begin();
 				model_deliver(-1, sig);
-				pthread_kill(pthread_self(), sig);
+				sched_raise(sig);
 				sched_atomic_end();
 			} else {
 				mc_obs("D:deliver%d->L%d", sig, arg[c]);
